@@ -35,6 +35,10 @@ def is_itable_store(M, acc_loc):
 def run(F, R):
     M = model(F)
     M.require_rings()
+    # O7: a descriptor is 'completely written' only if each field is overwritten with this submission's value
+    # (nothing of the previous occupant survives): the filling function folded over old contents (shared with C01.F1)
+    from .C01 import share_fn_rule
+    share_fn_rule(F, R, 'O7')
     eps = queue_entry_points(F, M)
     R.count('entry_points', len(eps))
     idx_writer_fns = []
